@@ -38,27 +38,27 @@ CHECKS = {
             "Trusted: reference model inlining (sorted(sub.modes)[k] -> call modes[k]). Register references inside included programs and positional arguments of include calls are not generated.",
             "DESIGN.md section 5 C07"),
     "C12": ("model_checking", "explicit-state BFS over load/loads call histories on the real module state (fork-per-history), differential against fresh-interpreter outcomes",
-            "States are the canonical content of every module-level mutable object of blackbird.*; transitions are real load/loads calls of a 38-script menu built to collide on names (valid, templates, tdm, failing at every stage incl. inside includes, probes whose metadata/body mention leftover names). BFS to the fixpoint of the canonical state space plus all raw histories of length <=2 (thorough <=3); every transition's outcome must equal the script's outcome in a pristine interpreter; programs of consecutive loads must share no mutable object.",
+            "States are the canonical content of every module-level mutable object of blackbird.*; transitions are real load/loads calls of a menu of about 60 events built to collide on names (valid scripts, templates, tdm, scripts failing at every stage incl. inside includes and inside divisions, probes whose metadata/body mention leftover names, relative loads after a change of working directory, rewrites of an included file); the state also holds process-wide numeric settings. BFS to the fixpoint of the canonical state space plus all raw histories of length <=2 (thorough <=3); every transition's outcome must equal the script's outcome in a pristine interpreter; programs of consecutive loads must share no mutable object.",
             "Each history starts from the import-time state via fork (no knowledge of the state's names needed). ANTLR caches treated as transparent (cold pristine vs warm histories agree).",
             "DESIGN.md section 5 C12"),
     "C13": ("model_checking", "explicit-state BFS over API event sequences on real program objects (replay-from-scratch), invariant checked in every state",
-            "12 programs/templates chosen for aliasing potential x 21 events (dumps, attribute reads, to_DiGraph, two template calls and a repeated one, match_template, operations on instances, 8 kinds of mutation of instances); BFS to depth 3 (thorough 5) with de-duplication on the tuple of digests; in every state: the program's digest (serialisation + deep content incl. optional keys) is unchanged, an instance changes only by mutations addressed to it, equal calls give equal instances.",
+            "13 programs/templates chosen for aliasing potential x 22 events (dumps, attribute reads, to_DiGraph, two template calls and a repeated one, match_template, operations on instances, 8 kinds of mutation of instances); BFS to depth 3 (thorough 5) with de-duplication on the tuple of digests; in every state: the program's digest (serialisation + deep content incl. optional keys) is unchanged, an instance changes only by mutations addressed to it, equal calls give equal instances.",
             "Digest observes programs through public attributes and dumps(). Mutations of the returned graph are not events.",
             "DESIGN.md section 5 C13"),
     "C01": ("exploration", "bounded-exhaustive enumeration of valid scripts from the shared alphabet; round trip iterated to a text fixpoint",
-            "Every script of the stated families (all single arguments x metadata variants, all ordered pairs of 55 argument shapes in four syntactic arrangements, list keywords, mode forms, loops, tdm programs with p-arrays; thorough: triples, options x pairs, 3 statements) is loaded, serialised and re-loaded generation after generation until the text repeats; each generation must be equivalent to the previous one (exact for numbers/booleans/strings/lists/arrays, by evaluation for symbolic arguments). All generations are covered because dumps o loads is a function of the text once it repeats.",
+            "Every script of the stated families (all single arguments x metadata variants, all ordered pairs of about 80 argument shapes in four syntactic arrangements, list keywords, mode forms, loops, tdm programs with p-arrays; thorough: triples, options x pairs, 3 statements) is loaded, serialised and re-loaded generation after generation until the text repeats; each generation must be equivalent to the previous one (exact for numbers/booleans/strings/lists/arrays, by evaluation for symbolic arguments). All generations are covered because dumps o loads is a function of the text once it repeats.",
             "Trusted: the equivalence (bbv/props/equiv.py). Variables of non-tdm programs and presence of an args key are not compared.",
             "DESIGN.md section 5 C01"),
     "C08": ("model_checking", "stateless schedule exploration: every combination of symbol-set iteration orders (forced-prefix reruns) per enumerated case, vs reference model",
-            "Cases = 15 (thorough 17) polynomial/rational expression shapes x every ordered choice of distinct registers from {q0,q1,q3,q10} (thorough adds q2, q007) x {positional, keyword, both} x {plain, after a measurement, inside a for-loop}. For every case every resolution of the intercepted nondeterminism (iteration order of free_symbols at every site reached from blackbird code) is executed; in each the transform must list exactly the written registers and its function, applied in the listed order, must compute the written formula.",
+            "Cases = 22 (thorough 24) polynomial/rational expression shapes (incl. tiny, many-digit and huge coefficients, repeated registers) x every ordered choice of distinct registers from {q0,q1,q3,q10} (thorough adds q2, q007) x {positional, keyword, both} x {plain, after a measurement, inside a for-loop}. For every case every resolution of the intercepted nondeterminism (iteration order of free_symbols at every site reached from blackbird code) is executed; in each the transform must list exactly the written registers and its function, applied in the listed order, must compute the written formula.",
             "The seam is in SymPy (Basic.free_symbols), installed by the harness; sets of ints are deterministic in CPython and not choice points.",
             "DESIGN.md section 5 C08"),
     "C19": ("model_checking", "stateless schedule exploration of symbol-set iteration orders per pipeline stage + one real interpreter per PYTHONHASHSEED of a seed cover",
-            "For each of 18 scripts (several overlapping parameter names / registers in one argument, parameters in keywords, arrays and variables, tdm, loops, includes on 2-3 modes in non-increasing set order) and each stage (load, dumps, template call, to_DiGraph, match_template, second generation) every combination of iteration orders at every symbol-set iteration reached from blackbird code is executed and must give one observation; the whole menu is also run in fresh interpreters under hash seeds added until every k! order of every name group (as str and as Symbol) has been realised; all must agree.",
+            "For each of 21 scripts (several overlapping parameter names / registers in one argument, parameters in keywords, arrays and variables, tdm, loops, includes on 2-3 modes in non-increasing set order) and each stage (load, dumps, template call, to_DiGraph, match_template, second generation) every combination of iteration orders at every symbol-set iteration reached from blackbird code is executed and must give one observation; the whole menu is also run in fresh interpreters under hash seeds added until every k! order of every name group (as str and as Symbol) has been realised; all must agree.",
             "Observation = canonical content (register lists normalised, function re-paired) + serialised text. Seam in SymPy free_symbols; other set sites are covered only by the real seed cover.",
             "DESIGN.md section 5 C19"),
     "C09": ("exploration", "bounded-exhaustive enumeration of API-built programs over a value alphabet (kind x edge value x position) with serialise/re-load differential",
-            "Programs are assembled through the Python API from a 117-value alphabet (every supported kind, edge values such as negative zero, subnormals, 1e+-300, int64 extremes, overlapping parameter names) in every position (positional, keyword, target option, type option), all ordered pairs, lists x lists, mode lists as ints and np.int64, with/without args keys, pairs of arrays x metadata variants (hoisting/numbering). dumps must succeed, the text must load, and the result must be equivalent (arrays bit-exact incl. sign of zero).",
+            "Programs are assembled through the Python API from a value alphabet of about 150 values (every supported kind, edge values such as negative zero, subnormals, 1e+-300, int64 extremes, overlapping parameter names) in every position (positional, keyword, target option, type option), all ordered pairs, lists x lists, mode lists as ints and np.int64, with/without args keys, pairs of arrays x metadata variants (hoisting/numbering). dumps must succeed, the text must load, and the result must be equivalent (arrays bit-exact incl. sign of zero).",
             "Operations carry both or neither of args/kwargs; strings quote-free. Three recorded findings (empty list, functions of parameters, arrays in metadata options).",
             "DESIGN.md section 5 C09"),
     "C15": ("exploration", "bounded-exhaustive enumeration of tdm scripts (p-array name x type x shape x usage x neighbouring features) vs reference model + round trip",
@@ -78,7 +78,7 @@ CHECKS = {
             "Arguments compared to 1e-9 relative; value class rotated per template (all classes on parameter-repeating templates).",
             "DESIGN.md section 5 C17"),
     "C18": ("exploration", "bounded-exhaustive metamorphic enumeration of layout edits at every site x global styles, gated by the g4-derived reference tokenizer",
-            "For 8 base scripts covering every rule that mentions NEWLINE or TAB: every single layout edit at every site (spaces 1-3 at each intra-line token boundary and line end, trailing comments, inserted blank / space-only / comment lines outside array bodies) x global styles (LF/CRLF/CR, tab vs four spaces, final newline or not), lines before the metadata, and (thorough) all pairs of line edits on short bases; the loaded program's exact canonical digest must equal the base's.",
+            "For 8 base scripts (per-line mixed indentation included) covering every rule that mentions NEWLINE or TAB: every single layout edit at every site (spaces 1-3 at each intra-line token boundary and line end, trailing comments, inserted blank / space-only / comment lines outside array bodies) x global styles (LF/CRLF/CR, tab vs four spaces, final newline or not), lines before the metadata, and (thorough) all pairs of line edits on short bases; the loaded program's exact canonical digest must equal the base's.",
             "Spacing edits are used only when the reference tokenizer confirms an unchanged token sequence. One recorded finding (line directly after a for header).",
             "DESIGN.md section 5 C18"),
     # id: (category, technique, text, note, design_ref)
